@@ -15,6 +15,7 @@ R6 emptiness witness: the quantity block_builder_empty tests is emptied by reset
 D  rests on: C20 (every byte the writer produces must reach the file whatever write(2) does); C16 (lengths and offsets in the file are written and read with these codecs) - re-run here as <id>.D.<rule>.
 R7 container contract (rules/vecrule.py): libmy/vector.h keeps its invariants, element preservation, post-conditions and memory safety in every scenario (every buffer of the writer and the block builder is one of these vectors).
 R8 dispatch wiring (rules/dispatch.py): the mtbl_iter / mtbl_source function tables are registered, called (own closure, own slot, parameters forwarded in order) and filled at every construction site without cross-wiring slots of equal signature.
+R9 block builder under tight buffers (rules/bbrule.py): with the entry buffer tightened to size + d bytes (d = 0..11, 0..23 thorough) before every add and before finish, every write stays inside the allocation and the finished size is entries + 4 per restart + 4.
 """
 import re
 from .common import *
@@ -256,6 +257,10 @@ def run(ctx, res):
     # ---- properties this one rests on (re-run here, labelled <this>.D.<rule>) ------------------
     depends(ctx, res, 'C20', None, 'every byte the writer produces must reach the file whatever write(2) does')
     depends(ctx, res, 'C16', None, 'lengths and offsets in the file are written and read with these codecs')
+
+    # ---- block builder under tight buffers
+    from . import bbrule
+    bbrule.check(ctx, res, "C01.R9")
 
     # ---- container contract ---------------------------------------------------------------------
     from . import vecrule
